@@ -711,6 +711,64 @@ def replay_stage(ctx, sat, unsat_cases):
             ctx.violation("proofrec:%s:%s" % (res, cls), "proofrec.solve_cnf on the %s %s: %s" % ("tautology" if taut else "non-tautology", F, res), rp)
 
 
+def nolearn_stage(ctx, sat, cases):
+    """(a) tie of `noLearnRun` (hypothesis of solve_terminates_partial): a real run learns no non-empty clause iff its
+    debug output shows no conflict analysis, or exactly one that ends the run with 'unsatisfiable'.  Uses the debug
+    messages of solve_cnf; when they are gone the stream is skipped."""
+    import contextlib
+    import io
+    lines, impl = [], []
+    seen_marker = False
+    for cnf in cases:
+        pcnf = [[(name_of(n), b) for (n, b) in cl] for cl in cnf]
+        variables = set()
+        for clause in pcnf:
+            for name, _ in clause:
+                variables.add(name)
+        var_order = [int(v[1:]) for v in variables]
+        rec = []
+        orig = getattr(sat, "resolution", None)
+        if not callable(orig):
+            ctx.count("nolearn:stream-unavailable")
+            return
+
+        def wrapped(c1, c2, name):
+            r = orig(c1, c2, name)
+            rec.append([(int(n[1:]), b) for (n, b) in r])
+            return r
+        sat.resolution = wrapped
+        buf = io.StringIO()
+        try:
+            with time_limit(10), contextlib.redirect_stdout(buf):
+                res = sat.solve_cnf(pcnf, debug=True)
+        except Timeout:
+            continue
+        except BaseException:  # noqa
+            continue
+        finally:
+            sat.resolution = orig
+        text = buf.getvalue()
+        nconf = sum(1 for ln in text.splitlines() if ln.startswith("Analyze conflict"))
+        seen_marker = seen_marker or nconf > 0
+        real = nconf == 0 or (nconf == 1 and res[0] == "unsatisfiable")
+        lines.append(sexp.dumps(["nolearn", FUEL, s_cnf(cnf), var_order, s_cnf(rec)]))
+        impl.append((cnf, real, nconf, len({n for cl in cnf for n, _ in cl})))
+    out = ctx.lean_driver(EXE, lines) if lines else []
+    if out is None:
+        return
+    model = [o == "T" for o in out]
+    if not seen_marker and any(not m for m in model):
+        ctx.count("nolearn:stream-unavailable(no debug messages)")
+        return
+    ndis = 0
+    for (cnf, real, nconf, nv), m in zip(impl, model):
+        ctx.count("nolearn:%s" % ("no-learning" if real else "learning"))
+        if m != real:
+            ndis += 1
+            if ndis <= 3:
+                ctx.broken("correspondence:c15:nolearn", "cnf=%s impl: %d conflict analyses, model noLearnRun=%s" % (cnf, nconf, m))
+
+
 def make_zchaff_trace(cnf, proofs):
     """A zChaff `resolve_trace` for an unsatisfiable CNF (variables = zChaff indices) from a trace of solve_cnf:
     one CL line per learned clause except the final empty one, then the level-0 implications (VAR lines, in propagation
@@ -1148,7 +1206,10 @@ def run(ctx):
         "correspondence harness harness/props/c15.py (generators, recorded set orders)",
         "translator of library/sat.json encode_* statements to Bool formulas",
         "Python set/dict semantics; tseitin.encode's theorem is judged by the real checker + brute force; its CNF is compared with the "
-        "model's clause set (subterm numbering taken from tseitin.logic_subterms), the proof-term construction itself is not modelled"]
+        "model's clause set and its hypotheses with the model's (subterm numbering taken from tseitin.logic_subterms), the proof-term "
+        "construction itself is not modelled",
+        "zChaff binary replaced by a stub reporting UNSAT; traces in zChaff's format generated by the harness from solve_cnf's own traces",
+        "debug messages of solve_cnf ('Analyze conflict ...') as the observation of learning for the noLearnRun stream"]
     ctx.assumptions += ["the model takes Python's set iteration orders as oracle inputs; theorems hold for every order",
                         "termination of solve_cnf is not proved (fuel); non-termination is searched for with time limits"]
     # 2+3. correspondence and oracle
@@ -1190,6 +1251,7 @@ def run(ctx):
     replay_stage(ctx, sat, UNSAT_TRACES[::step][:k])
     del UNSAT_TRACES[:]
     zchaff_stage(ctx, sat)
+    nolearn_stage(ctx, sat, cases[:ctx.scale(400, 4000)])
 
 
 def load_corpus(ctx):
@@ -1215,19 +1277,28 @@ def replay(ctx, rp):
 
 
 MANIFEST = {
-    "text": "Lean theorems about an executable model of solve_cnf for every CNF, fuel and set-iteration order (sat_sound, unsat_sound, "
-            "trace_valid, proofs_valid, verdict_correct, no_crash, unit_propagate_fuel_suffices), a verified certificate checker "
-            "(checkTrace_sound, checkProofs_sound) that is run on every 'unsatisfiable' answer of the real solver, and for a model of "
-            "tseitin.encode with atoms and auxiliary variables in one name space, the rewriting passes and the fresh-name choice: "
-            "tseitin_equisat, tseitin_succeeds, tseitin_names_fresh (and tseitin_name_clash_counterexample for the naming before the fix); "
-            "its clause groups are the encode_* rules regenerated from library/sat.json on each run. Models tied to prover/sat.py and "
-            "prover/tseitin.py by differential runs on generated inputs; verdicts, assignments and traces of the real solver judged by brute "
-            "force and an independent trace replay. Termination is not proved (fuel in the model; searched for with time limits on the implementation).",
-    "note": "Trusted: Lean kernel, propext/Classical.choice/Quot.sound, the harness generators and the recording of Python set orders, the "
-            "sat.json translator. That tseitin.encode's result is a checker-accepted theorem is judged by the real checker on generated formulas "
-            "(not proved); its CNF is compared with the model's. tseitin_succeeds is for subterm orders that pass the model's orderOK check "
-            "(the real order always did); that the model's own default order passes it is only evaluated, not proved. Needs the /repo fixes "
-            "4ab1cad and 2b1f8e8: on a tree without them the check reports the name-clash and true/false findings.",
+    "text": "Lean theorems about executable models, for every input, fuel and set-iteration order. solve_cnf: sat_sound, unsat_sound, "
+            "trace_valid, proofs_valid, verdict_correct, no_crash, unit_propagate_fuel_suffices; a verified certificate checker "
+            "(checkTrace_sound, checkProofs_sound) run on every 'unsatisfiable' answer of the real solver. tseitin.encode (atoms and "
+            "auxiliary variables in one name space, the rewriting passes, the fresh-name choice): tseitin_equisat, tseitin_succeeds, "
+            "tseitin_names_fresh, encode_statement_eq_model (the stated CNF is exactly the rules' clauses plus the top variable), "
+            "encode_sequent_valid (hypotheses entail the CNF), tseitin_name_clash_counterexample for the naming before the fix; clause groups "
+            "are the encode_* rules regenerated from library/sat.json on each run. Replay of resolution traces by logic.resolution as "
+            "zChaff.solve and proofrec.solve_cnf run it: macro_resolve_sound, replay_sound, replay_empty_unsat. Termination: "
+            "solve_terminates_partial only (runs that learn no non-empty clause end within #variables+1 rounds). Every model is tied to the "
+            "real code by differential streams: solve_cnf runs, tseitin.encode's CNF and hypotheses, single logic.resolution steps, traces of "
+            "solve_cnf replayed with the real macro, proofrec.solve_cnf end to end, the real zChaff.solve on generated traces (binary stubbed), "
+            "noLearnRun against the solver's debug output.",
+    "note": "NOT proved: termination of solve_cnf on runs with backjumps and of analyze_conflict's loop (fuel in the model; the measures and "
+            "invariants needed are written at solve_terminates_partial; non-termination is searched for with time limits); that the traces of "
+            "solve_cnf replay with logic.resolution to the empty clause (checked on every generated trace with the real macro, not a theorem); "
+            "that tseitin.encode's proof term is accepted by the checker (judged by the real checker on generated formulas; the construction "
+            "from kernel rules is not modelled: only its statement is); that the model's own default subterm order passes orderOK (evaluated; "
+            "the real order always did). The VAR/CONF sections of zChaff traces and the discharge steps of zChaff.solve / proofrec.solve_cnf "
+            "are exercised on the real code only (theorem returned must be |- F and check), not modelled. Trusted: Lean kernel, "
+            "propext/Classical.choice/Quot.sound, the harness generators and the recording of Python set orders, the sat.json translator. "
+            "Needs the /repo fixes fixes/C15-2..5.patch (without C15-4/5 the check reports the RecursionError of logic.resolution and the "
+            "failure of proofrec.solve_cnf on tautologies with a repeated argument).",
     "design_ref": "DESIGN.md 4/C15",
 }
 FINDINGS = [
